@@ -81,6 +81,9 @@ func parseInfluxLine(
 		return err
 	}
 
+	if limits.EnableTagsCheck() && len(tags) > limits.MaxTagsPerMetric {
+		return constants.ErrTooManyTagKeys
+	}
 	for k, v := range tags {
 		tagKey := strutil.String2ByteSlice(k)
 		if limits.EnableTagNameLengthCheck() && len(tagKey) > limits.MaxTagNameLength {
